@@ -153,9 +153,10 @@ func genProvCap(r *rand.Rand, edge bool) string {
 			d := 1 + r.Intn(9)
 			shoots = []string{"b(" + k(d) + ")", "a(" + k(cap-d+1) + ")"}
 		case 3:
-			shoots = []string{"a(" + k(cap/2+1+r.Intn(5)) + ")", "b", "a(" + k(cap/2) + ")"}
+			d := 1000 + r.Intn(5000)
+			shoots = []string{"a(" + k(d) + ")", "b", "a(" + k(cap-d) + ")"}
 		case 4:
-			shoots = []string{"a(600000)", "sleep(5)", "a(600000)"}
+			shoots = []string{"a(100)", "sleep(5)", "a(" + k(cap-99) + ")"}
 		case 5:
 			shoots = []string{"a", "b(2)", "a(" + pick(r, "2000000", "4294967297", "9223372036854775807", "1099511627776") + ")"}
 		case 6:
@@ -166,8 +167,8 @@ func genProvCap(r *rand.Rand, edge bool) string {
 			shoots = []string{pick(r, "sleep(3)", "nosuch", "a(x)"), "a(" + k(cap+1) + ")"}
 		case 8:
 			// the limit is per scenario, not per description: two scenarios of 3/4 of the limit each would be fine but heavy;
-			// two of 300 000 steps are accepted
-			shoots = []string{"a(300000)"}
+			// two of 50 000 steps are accepted
+			shoots = []string{"a(30000)", "b(20000,1)"}
 			ws = []string{"1", "1"}
 		case 9:
 			// weights: 16777215 + 2 (coprime) spread into 2^24 + 1 ammo
@@ -727,7 +728,9 @@ func genGunHTML(r *rand.Rand, inst int) string {
 		tm = "t"
 	}
 	a := "a:G::" + pick(r, big(), "clit|"+big(), "clit") + ":" + pick(r, "", big()) + ":jtok=tok"
-	b := "b:P::pa.tok|" + big() + ":" + pick(r, big(), "pa.tok") + "::x-extra=" + big()
+	// a Host header of the definition (any case) is the host the target sees (prepareRequest, repair 789fa67)
+	b := "b:P::pa.tok|" + big() + ":" + pick(r, big(), "pa.tok") + "::" +
+		pick(r, "x-extra="+big(), "x-extra="+big(), "Host=chost.example", "host=pa.tok", "HOST=clit|x-extra="+big(), "hOsT=cexample.org")
 	c := "c:G::" + pick(r, big(), "clit") + "::"
 	return fmt.Sprintf("kind=gun inst=%d shots=%d L=2 tm=%s rq=%s;%s;%s sc=s1:1:0:a|b|c|b or=", inst, inst*(1+r.Intn(2)), tm, a, b, c)
 }
@@ -880,7 +883,10 @@ func gen(r *rand.Rand, tier string) []string {
 		out = append(out, genProvCap(r, false))
 	}
 	for i := 0; i < nEdge; i++ {
-		out = append(out, genProvCap(r, true))
+		// drawn in every build (the stream of random numbers stays the same), run only without the race detector
+		if c := genProvCap(r, true); !raceBuild {
+			out = append(out, c)
+		}
 	}
 	for i := 0; i < nGun1; i++ {
 		out = append(out, genGun(r, 1))
